@@ -400,7 +400,7 @@ def run_property(pid, tier, seed, only=None, canaries=None, write_evidence=True,
     jobs = list(mod.jobs(tier))
     if only:
         jobs = [j for j in jobs if any(o in j['name'] for o in only)]
-    budget = getattr(mod, 'BUDGET_S', {}).get(tier, 1500 if tier == 'quick' else 10800)
+    budget = getattr(mod, 'BUDGET_S', {}).get(tier, 1500 if tier == 'quick' else 2400)
     opts = dict(seed=seed, deadline=t0 + budget)
     tasks = [(pid, j, opts) for j in jobs]
     tasks.sort(key=lambda t: -t[1].get('cost', 1))
